@@ -67,6 +67,49 @@ def _rv_ops(rv):
     return []
 
 
+def _calls_role(prog, fn, role):
+    try:
+        tgt = resolve(prog, role)
+    except AnchorError:
+        return False
+    for b, t in fn.calls():
+        if any(x.id == tgt.id for x in prog.targets(t, fn)[0]):
+            return True
+    return False
+
+
+def _reaches_role(prog, fn, role, depth=4):
+    try:
+        tgt = resolve(prog, role)
+    except AnchorError:
+        return False
+    seen, stack = set(), [(fn, 0)]
+    while stack:
+        f, d = stack.pop()
+        if f.id in seen or d > depth:
+            continue
+        seen.add(f.id)
+        for b, t in f.calls():
+            for x in prog.targets(t, f)[0]:
+                if x.id == tgt.id:
+                    return True
+                if x.crate == "abyssiniandb":
+                    stack.append((x, d + 1))
+    return False
+
+
+def _calls_any(fn, names):
+    return any(n in _callee_names(fn) for n in names)
+
+
+def _has_neg(fn):
+    for blk in fn.blocks:
+        for s_ in blk["stmts"]:
+            if s_["s"] == "assign" and s_["rhs"]["rv"] == "un" and s_["rhs"]["op"] == "Neg":
+                return True
+    return False
+
+
 def _binops(fn):
     out = set()
     for blk in fn.blocks:
@@ -84,12 +127,12 @@ ROLES = {
     "HEAD_WRITE": dict(owner=HTXFILE, name="write_key_piece_offset",
                        shape=lambda p, f: sig(f) == (("&HtxFile", "HashValue", "Offset<Piece<Key>>"), "Result<(), Error>")),
     "CNT_READ": dict(owner=HTXFILE, name="read_item_count",
-                     shape=lambda p, f: sig(f) == (("&HtxFile",), "Result<u64, Error>") and "read_item_count" in _callee_names(f)),
+                     shape=lambda p, f: sig(f) == (("&HtxFile",), "Result<u64, Error>") and _calls_role(p, f, "CNT_READ_RAW")),
     "CNT_UP": dict(owner=HTXFILE, name="write_item_count_up",
                    shape=lambda p, f: sig(f) == (("&mut HtxFile",), "Result<(), Error>") and ("AddWithOverflow" in _binops(f) or "Add" in _binops(f))),
     "CNT_DOWN": dict(owner=HTXFILE, name="write_item_count_down",
                      shape=lambda p, f: sig(f) == (("&mut HtxFile",), "Result<(), Error>") and ("SubWithOverflow" in _binops(f) or "Sub" in _binops(f))),
-    "HT_SIZE_READ_W": dict(owner=HTXFILE, name="read_hash_buckets_size", shape=None),
+    "HT_SIZE_READ_W": dict(owner=HTXFILE, name="read_hash_buckets_size", shape=lambda p, f: sig(f) == (("&HtxFile",), "Result<u64, Error>") and _calls_role(p, f, "HT_SIZE_READ")),
     "HTX_OPEN": dict(owner=HTXFILE, name="open_with_params",
                      shape=lambda p, f: short(f.output) == "Result<HtxFile, Error>" and len(f.inputs) == 4),
     "HTX_FILL": dict(owner=HTXFILE, name="htx_filling_rate_per_mill",
@@ -120,7 +163,7 @@ ROLES = {
     "KEY_REWRITE": dict(owner=KEYFILE, name="write_piece",
                         shape=lambda p, f: len(f.inputs) == 2 and short(f.inputs[0]).startswith("&KeyFile<") and short(f.inputs[1]).startswith("KeyPiece<") and short(f.output).startswith("Result<KeyPiece<")),
     "KEY_FREE": dict(owner=KEYFILE, name="delete_piece",
-                     shape=lambda p, f: len(f.inputs) == 2 and short(f.inputs[0]).startswith("&KeyFile<") and short(f.output) == "Result<Size<Piece<Key>>, Error>"),
+                     shape=lambda p, f: len(f.inputs) == 2 and short(f.inputs[0]).startswith("&KeyFile<") and short(f.output) == "Result<Size<Piece<Key>>, Error>" and _reaches_role(p, f, "SLOT_PUSH")),
     "KEY_READ": dict(owner=KEYFILE, name="read_piece",
                      shape=lambda p, f: len(f.inputs) == 2 and short(f.inputs[0]).startswith("&KeyFile<") and short(f.inputs[1]) == "Offset<Piece<Key>>" and short(f.output).startswith("Result<KeyPiece<")),
     "KEY_VALOFF": dict(owner=KEYFILE, name="read_piece_only_value_offset",
@@ -132,7 +175,7 @@ ROLES = {
     "KEY_WRITE_PIECE": dict(owner=KEYCACHE, name="write_piece",
                             shape=lambda p, f: len(f.inputs) == 3 and short(f.inputs[2]) == "bool" and short(f.output).startswith("Result<KeyPiece<")),
     "KEY_DELETE_PIECE": dict(owner=KEYCACHE, name="delete_piece",
-                             shape=lambda p, f: len(f.inputs) == 2 and short(f.inputs[0]).startswith("&mut VarFileKeyCache<") and short(f.output) == "Result<Size<Piece<Key>>, Error>"),
+                             shape=lambda p, f: len(f.inputs) == 2 and short(f.inputs[0]).startswith("&mut VarFileKeyCache<") and short(f.output) == "Result<Size<Piece<Key>>, Error>" and _reaches_role(p, f, "SLOT_PUSH")),
     "KEY_RECORD_WRITE": dict(owner=KEYPIECE, name="dat_write_piece_one",
                              shape=lambda p, f: len(f.inputs) == 2 and short(f.inputs[1]) == "&mut VarFile" and short(f.output) == "Result<(), Error>"),
     "KEY_SIZER": dict(owner=KEYPIECE, name="encoded_piece_size",
@@ -151,7 +194,7 @@ ROLES = {
     "VAL_REWRITE": dict(owner=VALFILE, name="write_piece",
                         shape=lambda p, f: sig(f) == (("&ValueFile", "ValuePiece"), "Result<ValuePiece, Error>")),
     "VAL_FREE": dict(owner=VALFILE, name="delete_piece",
-                     shape=lambda p, f: sig(f) == (("&ValueFile", "Offset<Piece<Value>>"), "Result<Size<Piece<Value>>, Error>")),
+                     shape=lambda p, f: sig(f) == (("&ValueFile", "Offset<Piece<Value>>"), "Result<Size<Piece<Value>>, Error>") and _reaches_role(p, f, "SLOT_PUSH")),
     "VAL_READ": dict(owner=VALFILE, name="read_piece_only_value",
                      shape=lambda p, f: sig(f) == (("&ValueFile", "Offset<Piece<Value>>"), "Result<Vec<u8>, Error>")),
     "VAL_READ_PIECE_W": dict(owner=VALFILE, name="read_piece",
@@ -159,7 +202,7 @@ ROLES = {
     "VAL_WRITE_PIECE": dict(owner=VALCACHE, name="write_piece",
                             shape=lambda p, f: sig(f) == (("&mut VarFileValueCache", "ValuePiece", "bool"), "Result<ValuePiece, Error>")),
     "VAL_DELETE_PIECE": dict(owner=VALCACHE, name="delete_piece",
-                             shape=lambda p, f: sig(f) == (("&mut VarFileValueCache", "Offset<Piece<Value>>"), "Result<Size<Piece<Value>>, Error>")),
+                             shape=lambda p, f: sig(f) == (("&mut VarFileValueCache", "Offset<Piece<Value>>"), "Result<Size<Piece<Value>>, Error>") and _reaches_role(p, f, "SLOT_PUSH")),
     "VAL_RECORD_WRITE": dict(owner=VALPIECE, name="dat_write_piece_one",
                              shape=lambda p, f: sig(f) == (("&ValuePiece", "&mut VarFile"), "Result<(), Error>")),
     "VAL_SIZER": dict(owner=VALPIECE, name="encoded_piece_size",
@@ -170,41 +213,42 @@ ROLES = {
                           shape=lambda p, f: sig(f) == (("&mut VarFile", "[u8; 8]"), "Result<(), Error>") and not any(n.startswith("write") for n in _callee_names(f))),
     # --- piece ---------------------------------------------------------------
     "SLOT_PUSH": dict(owner=VARFILE, module=M_PIECE, name="push_free_piece_list",
-                      shape=lambda p, f: len(f.inputs) == 3 and short(f.inputs[1]).startswith("Offset<Piece<") and short(f.inputs[2]).startswith("Size<Piece<") and short(f.output) == "Result<(), Error>" and "write_zero_to_offset" in _callee_names(f)),
+                      shape=lambda p, f: len(f.inputs) == 3 and short(f.inputs[1]).startswith("Offset<Piece<") and short(f.inputs[2]).startswith("Size<Piece<") and short(f.output) == "Result<(), Error>"),
     "SLOT_POP": dict(owner=VARFILE, module=M_PIECE, name="pop_free_piece_list",
-                     shape=lambda p, f: len(f.inputs) == 2 and short(f.inputs[1]).startswith("Size<Piece<") and short(f.output).startswith("Result<Offset<Piece<")),
+                     shape=lambda p, f: len(f.inputs) == 2 and short(f.inputs[1]).startswith("Size<Piece<") and short(f.output).startswith("Result<Offset<Piece<") and _calls_role(p, f, "LARGE_POP")),
     "LARGE_POP": dict(owner=VARFILE, module=M_PIECE, name="pop_free_piece_list_large",
                       shape=lambda p, f: len(f.inputs) == 3 and short(f.inputs[1]).startswith("Size<Piece<") and short(f.inputs[2]).startswith("Offset<Piece<") and short(f.output).startswith("Result<Offset<Piece<")),
-    "FREE_HEAD_READ": dict(owner=VARFILE, module=M_PIECE, name="read_free_piece_offset_on_header", shape=None),
-    "FREE_HEAD_WRITE": dict(owner=VARFILE, module=M_PIECE, name="write_free_piece_offset_on_header", shape=None),
+    "FREE_HEAD_READ": dict(owner=VARFILE, module=M_PIECE, name="read_free_piece_offset_on_header", shape=lambda p, f: len(f.inputs) == 2 and short(f.inputs[1]).startswith("Size<Piece<") and short(f.output).startswith("Result<Offset<Piece<") and _calls_role(p, f, "FREE_HEAD_OFFSET") and "read_u64_le" in _callee_names(f)),
+    "FREE_HEAD_WRITE": dict(owner=VARFILE, module=M_PIECE, name="write_free_piece_offset_on_header", shape=lambda p, f: len(f.inputs) == 3 and short(f.inputs[1]).startswith("Size<Piece<") and short(f.inputs[2]).startswith("Offset<Piece<") and short(f.output) == "Result<(), Error>"),
     "FREE_COUNT": dict(owner=VARFILE, module=M_PIECE, name="count_of_free_piece_list",
                        shape=lambda p, f: len(f.inputs) == 2 and short(f.output) == "Result<u64, Error>" and f.module == M_PIECE),
-    "FREE_SIZE_NEXT": dict(owner=VARFILE, module=M_PIECE, name="read_free_piece_size_next", shape=None),
+    "FREE_SIZE_NEXT": dict(owner=VARFILE, module=M_PIECE, name="read_free_piece_size_next", shape=lambda p, f: len(f.inputs) == 2 and short(f.output).startswith("Result<(Size<Piece<") ),
     "ROUNDUP": dict(owner=PIECEMGR, name="roundup",
                     shape=lambda p, f: len(f.inputs) == 2 and short(f.inputs[0]) == "&PieceMgr" and short(f.output).startswith("Size<Piece<")),
-    "FREE_HEAD_OFFSET": dict(owner=PIECEMGR, name="free_piece_list_offset_of_header", shape=None),
-    "IS_LARGE": dict(owner=PIECEMGR, name="is_large_piece_size", shape=None),
-    "SLOT_WALK": dict(owner=A + "piece::PieceOffsetIter", name="next_piece_offset", shape=None),
+    "FREE_HEAD_OFFSET": dict(owner=PIECEMGR, name="free_piece_list_offset_of_header", shape=lambda p, f: len(f.inputs) == 2 and short(f.inputs[0]) == "&PieceMgr" and short(f.output) == "u64"),
+    "CAN_DOWN": dict(owner=PIECEMGR, name="can_down", shape=lambda p, f: len(f.inputs) == 3 and short(f.inputs[0]) == "&PieceMgr" and short(f.output) == "bool"),
+    "IS_LARGE": dict(owner=PIECEMGR, name="is_large_piece_size", shape=lambda p, f: len(f.inputs) == 2 and short(f.inputs[0]) == "&PieceMgr" and short(f.output) == "bool"),
+    "SLOT_WALK": dict(owner=A + "piece::PieceOffsetIter", name="next_piece_offset", shape=lambda p, f: len(f.inputs) == 1 and short(f.output).startswith("Result<Option<Offset<Piece<")),
     # --- vfile ---------------------------------------------------------------
     "ZERO_PAD": dict(owner=VARFILE, module=M_VFILE, name="write_zero_to_offset",
                      shape=lambda p, f: len(f.inputs) == 2 and short(f.inputs[1]).startswith("Offset<") and short(f.output) == "Result<(), Error>" and "write_zero" in _callee_names(f)),
-    "SLOT_CLEAR": dict(owner=VARFILE, module=M_VFILE, name="write_piece_clear", shape=None),
+    "SLOT_CLEAR": dict(owner=VARFILE, module=M_VFILE, name="write_piece_clear", shape=lambda p, f: len(f.inputs) == 3 and short(f.inputs[1]).startswith("Offset<Piece<") and short(f.inputs[2]).startswith("Size<Piece<") and short(f.output) == "Result<(), Error>"),
     "EXTEND": dict(owner=VARFILE, module=M_VFILE, name="seek_to_end",
                    shape=lambda p, f: len(f.inputs) == 1 and short(f.output).startswith("Result<Offset<") and "seek" in _callee_names(f) and not f.name.startswith("_")),
     "SET_LEN": dict(owner=VARFILE, module=M_VFILE, name="set_file_length",
                     shape=lambda p, f: len(f.inputs) == 2 and "set_len" in _callee_names(f)),
-    "SEEK_START": dict(owner=VARFILE, module=M_VFILE, name="seek_from_start", shape=None),
-    "SEEK_BACK": dict(owner=VARFILE, module=M_VFILE, name="seek_back_size", shape=None),
-    "W_PIECE_SIZE": dict(owner=VARFILE, module=M_VFILE, name="write_piece_size", shape=None),
-    "R_PIECE_SIZE": dict(owner=VARFILE, module=M_VFILE, name="read_piece_size", shape=None),
-    "W_PIECE_OFFSET": dict(owner=VARFILE, module=M_VFILE, name="write_piece_offset", shape=None),
-    "R_PIECE_OFFSET": dict(owner=VARFILE, module=M_VFILE, name="read_piece_offset", shape=None),
-    "W_KEY_LEN": dict(owner=VARFILE, module=M_VFILE, name="write_key_len", shape=None),
-    "R_KEY_LEN": dict(owner=VARFILE, module=M_VFILE, name="read_key_len", shape=None),
-    "W_VAL_LEN": dict(owner=VARFILE, module=M_VFILE, name="write_value_len", shape=None),
-    "R_VAL_LEN": dict(owner=VARFILE, module=M_VFILE, name="read_value_len", shape=None),
-    "W_FREE_OFFSET": dict(owner=VARFILE, module=M_VFILE, name="write_free_piece_offset", shape=None),
-    "R_FREE_OFFSET": dict(owner=VARFILE, module=M_VFILE, name="read_free_piece_offset", shape=None),
+    "SEEK_START": dict(owner=VARFILE, module=M_VFILE, name="seek_from_start", shape=lambda p, f: len(f.inputs) == 2 and short(f.inputs[1]) == "Offset<T>" and short(f.output) == "Result<Offset<T>, Error>" and "prepare" in _callee_names(f)),
+    "SEEK_BACK": dict(owner=VARFILE, module=M_VFILE, name="seek_back_size", shape=lambda p, f: len(f.inputs) == 2 and short(f.inputs[1]) == "Size<T>" and short(f.output) == "Result<Offset<T>, Error>" and _has_neg(f)),
+    "W_PIECE_SIZE": dict(owner=VARFILE, module=M_VFILE, name="write_piece_size", shape=lambda p, f: len(f.inputs) == 2 and short(f.inputs[1]) == "Size<Piece<T>>" and short(f.output) == "Result<(), Error>"),
+    "R_PIECE_SIZE": dict(owner=VARFILE, module=M_VFILE, name="read_piece_size", shape=lambda p, f: len(f.inputs) == 1 and short(f.output) == "Result<Size<Piece<T>>, Error>"),
+    "W_PIECE_OFFSET": dict(owner=VARFILE, module=M_VFILE, name="write_piece_offset", shape=lambda p, f: len(f.inputs) == 2 and short(f.inputs[1]) == "Offset<Piece<T>>" and short(f.output) == "Result<(), Error>" and not f.name.startswith("_") and not _calls_any(f, ("write_u64_le",)) or (len(f.inputs) == 2 and short(f.inputs[1]) == "Offset<Piece<T>>" and short(f.output) == "Result<(), Error>" and not f.name.startswith("_") and "vf_vu64" not in p.features.get("abyssiniandb", []))),
+    "R_PIECE_OFFSET": dict(owner=VARFILE, module=M_VFILE, name="read_piece_offset", shape=lambda p, f: len(f.inputs) == 1 and short(f.output) == "Result<Offset<Piece<T>>, Error>" and not f.name.startswith("_")),
+    "W_KEY_LEN": dict(owner=VARFILE, module=M_VFILE, name="write_key_len", shape=lambda p, f: len(f.inputs) == 2 and short(f.inputs[1]) == "Length<Key>" and short(f.output) == "Result<(), Error>"),
+    "R_KEY_LEN": dict(owner=VARFILE, module=M_VFILE, name="read_key_len", shape=lambda p, f: len(f.inputs) == 1 and short(f.output) == "Result<Length<Key>, Error>"),
+    "W_VAL_LEN": dict(owner=VARFILE, module=M_VFILE, name="write_value_len", shape=lambda p, f: len(f.inputs) == 2 and short(f.inputs[1]) == "Length<Value>" and short(f.output) == "Result<(), Error>"),
+    "R_VAL_LEN": dict(owner=VARFILE, module=M_VFILE, name="read_value_len", shape=lambda p, f: len(f.inputs) == 1 and short(f.output) == "Result<Length<Value>, Error>"),
+    "W_FREE_OFFSET": dict(owner=VARFILE, module=M_VFILE, name="write_free_piece_offset", shape=lambda p, f: len(f.inputs) == 2 and short(f.inputs[1]) == "Offset<T>" and short(f.output) == "Result<(), Error>" and "write_u64_le" in _callee_names(f)),
+    "R_FREE_OFFSET": dict(owner=VARFILE, module=M_VFILE, name="read_free_piece_offset", shape=lambda p, f: len(f.inputs) == 1 and short(f.output) == "Result<Offset<T>, Error>" and "read_u64_le" in _callee_names(f)),
     # --- dbxxx ---------------------------------------------------------------
     "LOOKUP": dict(owner=INNER, name="find_in_hash_buckets_kt",
                    shape=lambda p, f: "Option<(Offset<Piece<Key>>, Offset<Piece<Key>>)>" in short(f.output) and f.impl_self_adt == INNER),
@@ -214,7 +258,7 @@ ROLES = {
                       shape=lambda p, f: len(f.inputs) == 3 and short(f.inputs[1]) == "Offset<Piece<Key>>" and short(f.inputs[2]) == "&[u8]" and f.impl_self_adt == INNER and f.impl_trait is None),
     "LOAD_VALUE": dict(owner=INNER, name="load_value",
                        shape=lambda p, f: len(f.inputs) == 2 and short(f.inputs[1]) == "Offset<Piece<Key>>" and short(f.output) == "Result<Vec<u8>, Error>" and f.impl_self_adt == INNER and f.impl_trait is None),
-    "LOAD_KEY": dict(owner=INNER, name="load_key_data", shape=None),
+    "LOAD_KEY": dict(owner=INNER, name="load_key_data", shape=lambda p, f: len(f.inputs) == 2 and short(f.inputs[1]) == "Offset<Piece<Key>>" and short(f.output) == "Result<KT, Error>" and f.impl_self_adt == INNER and f.impl_trait is None),
     "ITER_NEXT": dict(owner=ITERMUT, name="next_piece_offset",
                       shape=lambda p, f: len(f.inputs) == 1 and short(f.output) == "Option<Offset<Piece<Key>>>" and f.impl_self_adt == ITERMUT),
     "ITER_NEW": dict(owner=ITERMUT, name="new",
